@@ -59,6 +59,9 @@ func findEdit(f hist.Family, s hist.Src, name string) hist.Edit {
 func main() {
 	r := lib.Start("C32", "fault_enumeration")
 	plz := filepath.Join(lib.VerifRoot, ".work", "bin", "plz")
+	if p := os.Getenv("VERIF_PLZ"); p != "" {
+		plz = p // the driver says which binary it built from the repository under test
+	}
 	plzVos := os.Getenv("VERIF_PLZ_VOS")
 	if plzVos == "" {
 		lib.Fatal("VERIF_PLZ_VOS not set (driver must build plz with the file-system seam)")
